@@ -174,9 +174,15 @@ def key_spec(rng, alg, ktype, engine_hex, kind):
     if ktype == "password":
         return pw.hex()
     ku = usm.password_to_key(alg, pw)
-    if ktype == "master":
-        return ku.hex()
-    return usm.localize(alg, ku, bytes.fromhex(engine_hex)).hex()
+    key = ku if ktype == "master" else usm.localize(alg, ku, bytes.fromhex(engine_hex))
+    # Keys shorter than the digest are legal: the API pads them with trailing zero octets
+    # (a 16-octet privacy key under SHA-1; an auth key with its trailing zeros left out).
+    r = rng.random()
+    if kind == "priv" and len(key) > 16 and r < 0.3:
+        key = key[:16]
+    elif kind == "auth" and r < 0.12:
+        key = key[: len(key) - rng.randint(1, 4)]
+    return key.hex()
 
 
 SEC_LEVELS = ["noauth", "md5", "sha", "md5-des", "md5-aes", "sha-des", "sha-aes"]
